@@ -40,7 +40,8 @@ Corpus == <<
     "Authorization", ":", " ", "Basic", " ", "dTpw", CRLF, CRLF>>
 >>
 
-Hostile == <<"", " ", "\t", "\r", "\n", "<NUL>", ":", ",", ";", "=", "-1", "99999999999999999999", "0x", "a:b", "%", "%zz", "<C3>", "<FF>", "\r\n\r\n">>
+Hostile == <<"", " ", "\t", "\r", "\n", "<NUL>", ":", ",", ";", "=", "-1", "99999999999999999999", "0x", "a:b", "%", "%zz", "<C3>", "<FF>", "\r\n\r\n",
+             "7fffffffffffffff", "7ffffffffffffffe", "ffffffffffffffff", "+1", "9223372036854775807", "18446744073709551615">>
 
 RECURSIVE Cat(_)
 Cat(ts) == IF ts = << >> THEN "" ELSE Head(ts) \o Cat(Tail(ts))
